@@ -2,17 +2,19 @@
 Core-only so that it links as a `lean_exe`. -/
 import OsmoVerif.Model.DrvNum
 import OsmoVerif.Model.DrvMath
+import OsmoVerif.Model.DrvMint
 
 open OsmoVerif
 
 structure St where
-  dummy : Unit := ()
+  mint : Mint.DrvState := Mint.initMint
 
 def step (st : St) (line : String) : St × String :=
   match (line.trimAscii.toString.splitOn " ").filter (· ≠ "") with
   | "num" :: op :: args => (st, Num.stepNum op args)
   | "math" :: op :: args => (st, MathM.stepMath op args)
   | "tick" :: op :: args => (st, Tick.stepTick op args)
+  | "mint" :: op :: args => let (m, o) := Mint.stepMint st.mint op args; ({ st with mint := m }, o)
   | _ => (st, "bad-op")
 
 partial def loop (h : IO.FS.Stream) (out : IO.FS.Stream) (st : St) : IO Unit := do
